@@ -101,7 +101,9 @@ class Scaffold:
         tag_set = set()
         for frag in self.fragments():
             for t in frag.tags:
-                tag_set.add(t)
+                # An empty column in an AGP line is not a tag
+                if t:
+                    tag_set.add(t)
         return tag_set
 
     def reverse(self):
